@@ -91,6 +91,41 @@ mut("C17-key-compare-dropped", ABS, "                if self_msg.key != other_ms
 mut("C17-channel-flag-inverted", ABS, "if self_channel != other_channel and not ignore_channel:", "if self_channel != other_channel and ignore_channel:", ["C17"])
 mut("C17-denominator-dropped", ABS, "if self_msg.numerator != other_msg.numerator or self_msg.denominator != other_msg.denominator:", "if self_msg.numerator != other_msg.numerator:", ["C17"])
 
+# C07
+mut("C07-wait-buffer-dropped-on-skip", REL, "                    # Skip message if note is already open\n                    if len(note_list) != 1:\n                        continue",
+    "                    # Skip message if note is already open\n                    if len(note_list) != 1:\n                        wait_buffer = 0\n                        continue", ["C07"])
+mut("C07-repeat-test-inverted", REL, "if msg.key != current_key:\n                        current_key = msg.key\n                    else:\n                        continue",
+    "if msg.key != current_key:\n                        current_key = msg.key\n                        continue", ["C07"])
+mut("C07-inner-off-kept", REL, "                    # Skip message if note not yet closed\n                    if len(note_list) != 0:\n                        continue",
+    "                    # Skip message if note not yet closed\n                    if len(note_list) > 1:\n                        continue", ["C07"])
+mut("C07-pop-wrong-channel", REL, "                    note_list = open_messages[msg.channel].get(msg.note, [])\n\n                    # Skip message if note was never opened",
+    "                    note_list = open_messages[min(open_messages)].get(msg.note, [])\n\n                    # Skip message if note was never opened", ["C07"])
+mut("C07-trailing-wait-dropped", REL, "        if wait_buffer > 0:\n            messages_normalized.append(\n                Message(message_type=MessageType.WAIT, channel=default_channel, time=wait_buffer))",
+    "        if wait_buffer > 1:\n            messages_normalized.append(\n                Message(message_type=MessageType.WAIT, channel=default_channel, time=wait_buffer))", ["C07"])
+mut("C07-ts-compare-numerator-only", REL, "if msg.numerator != current_ts_numerator or msg.denominator != current_ts_denominator:", "if msg.numerator != current_ts_numerator:", [])
+
+# C05
+mut("R13-quantise-pitch-only", ABS, "                    open_messages[(msg.channel, msg.note)] = message_to_append.time\n", "                    open_messages[msg.note] = message_to_append.time\n", ["C05"])
+mut("R13b-quantise-timings-pitch-only", ABS, "                if (msg.channel, msg.note) not in message_timings \\\n                        or not message_to_append.time < message_timings[(msg.channel, msg.note)][1]:",
+    "                if True:", ["C05"])
+mut("C05-zero-length-kept", ABS, "                if msg.time - time <= 0:\n                    original_indices_to_remove.extend([j, i])", "                if msg.time - time < 0:\n                    original_indices_to_remove.extend([j, i])", ["C05"])
+mut("C05-right-neighbour-max-step", ABS, "positions_right = [positions_left[i] + step_sizes[i] for i in range(0, len(step_sizes))]", "positions_right = [positions_left[i] + max(step_sizes) for i in range(0, len(step_sizes))]", ["C05"])
+mut("C05-sort-dropped", ABS, "        self._messages = quantised_messages\n        self.normalise_absolute()\n\n    def quantise_note_lengths", "        self._messages = quantised_messages\n\n    def quantise_note_lengths", ["C05"])
+mut("C05-off-not-guarded", ABS, "                        if not position - note_open_timing <= 0:\n                            valid_positions.append(position)", "                        valid_positions.append(position)", ["C05"])
+mut("C05-meta-not-quantised", ABS, "            else:\n                valid_positions += possible_positions\n                message_to_append.time = valid_positions[find_minimal_distance(message_original_time, valid_positions)]\n\n            if message_to_append is not None:",
+    "            else:\n                pass\n\n            if message_to_append is not None:", ["C05"])
+mut("C05-find-min-last", UTL, "        if candidate_distance < distance:", "        if candidate_distance <= distance:", [])
+
+# C06
+mut("C06-clash-ge", ABS, "if message_pairing[1].time + possible_correction > possible_next_pairing[0].time:", "if message_pairing[1].time + possible_correction >= possible_next_pairing[0].time:", ["C06"])
+mut("C06-dne-filter-dropped", ABS, "if possible_correction > 0 and do_not_extend and note_value in valid_durations:", "if possible_correction > 0 and False and note_value in valid_durations:", ["C06"])
+mut("C06-best-from-unfiltered", ABS, "best_fit = valid_durations[find_minimal_distance(current_duration, valid_durations)]", "best_fit = note_values[find_minimal_distance(current_duration, note_values)]", ["C06"])
+mut("C06-pairing-not-per-channel", ABS, "                note = message_pairing[0].note\n                current_duration = message_pairing[1].time - message_pairing[0].time\n                valid_durations = copy.copy(note_values)\n\n                # Check if the current note is not the last note, in this case clashes with a next note could exist\n                index = note_occurrences[note].index(message_pairing)\n                if index != len(note_occurrences[note]) - 1:",
+    "                note = message_pairing[0].note\n                current_duration = message_pairing[1].time - message_pairing[0].time\n                valid_durations = copy.copy(note_values)\n\n                # Check if the current note is not the last note, in this case clashes with a next note could exist\n                index = note_occurrences[note].index(message_pairing)\n                if index != len(note_occurrences[note]) - 1 and index == 0:", ["C06"])
+mut("C06-meta-dropped", ABS, "            if msg.message_type is not MessageType.NOTE_ON and msg.message_type is not MessageType.NOTE_OFF:\n                quantised_messages.append(msg)",
+    "            if msg.message_type is not MessageType.NOTE_ON and msg.message_type is not MessageType.NOTE_OFF and msg.message_type is not MessageType.PROGRAM_CHANGE:\n                quantised_messages.append(msg)", ["C06"])
+mut("C06-no-invalidate", SEQ, "        self.abs.quantise_note_lengths(note_values, standard_length=standard_length, do_not_extend=do_not_extend)\n        self.invalidate_rel()", "        self.abs.quantise_note_lengths(note_values, standard_length=standard_length, do_not_extend=do_not_extend)", ["C06", "C04"])
+
 
 def run(cmd, env):
     p = subprocess.run(cmd, cwd=ROOT, env=env, capture_output=True, text=True)
